@@ -121,6 +121,13 @@ fn cigar_to_features(
 
     let mut features = Vec::new();
 
+    if sequence.is_empty() && cigar.read_length()? > 0 {
+        return Err(io::Error::new(
+            io::ErrorKind::InvalidInput,
+            "mapped records with a CIGAR but without a sequence are not supported",
+        ));
+    }
+
     let mut reference_position = alignment_start;
     let mut read_position = Position::MIN;
 
